@@ -130,6 +130,33 @@ Space     N in {1,2,3,5,8} paths  x  ALL sequences of terminal spot values over 
           scripts (the k-th pricing starts the cycle of grids at position k), operations plain / other / deepcopy / fork / dill
           (thorough: all copies), identity and log, all pairs (N1, N2), same payoff, and the payoff changed between the pricings
           (as / b-uo / s, same ControlVariates object).
+          Path-dependent CONTROLS (both tiers): control kinds 1b (up-and-out barrier call on Spot), 2b (forward + down-and-in
+          barrier call), 2c (up-and-in + down-and-out), strike 0.875, barriers 1.25 / 0.75, given price 0.25 - for products on
+          Spot (s, v2, b-uo, b-di: the control's underlying is IMPLIED from the product's and never computed from the path) and
+          for the Asian product (computed from the path); the stored control rows are compared row by row with the control
+          product valued on its own on the same scripted path, then the complete regression oracle applies. All B9 sequences
+          for N <= 2 in both representations (N = 3: s / b-di with 1b / 2b, identity; thorough everything and b-ui / b-do / av2),
+          all R27 sequences for N = 1 (N = 2: s / as with 2b; thorough all), the fixed ragged scripts (payoffs s / v2 / as / b-uo,
+          controls 2b / 2c, one process in both representations and 2 workers), the pool branch over B9 (N <= 2), and ragged
+          histories (f): same configuration re-priced (s / b-uo with 2b; plain / deepcopy / dill / deepcopy-objects, log plain) and
+          the product changed among as / b-uo / s while the SAME ControlVariates object (2b, 2c) stays in the configuration.
+          Products on the DEFAULT TIME (both tiers; label `ragged-grids`): the underlying DefaultTime(-0.25) reads the PURE-JUMP
+          component handed over by MCPath next to the path value. Payoffs cds (the library's CDS payoff, discounting
+          exp(-0.0625 t), recovery 0.375, spread 0.046875; the reference writes the documented formula out), dput / dpv2
+          (put(s) on the default time); controls none / 1d (put on the default time, strike 0.875: implied) / 2d (forward on
+          Spot, computed from the path, + that put). A default-time letter is (grid, diffusion increments, log-jump
+          increments) with BOTH components moving: per interval (log-jump, diffusion) in {(0, .25), (0, -.5), (-.5, .5),
+          (-.125, -.5)} - a Brownian move below the threshold must not default, a jump below the threshold compensated by
+          the diffusion must, a jump above it pushed below by the diffusion must not; the reference finds the default time
+          from the scripted log-jump increments ALONE. Alphabet D32 = {q, t} x 4 x 4: all sequences for N = 1 (every payoff /
+          control kind, both representations; in the identity representation the jump component is exp(log-jump sums)) and
+          for N = 2 on (cds, none), (dput, 2d), (dpv2, 1d) (thorough: all); fixed scripts of 7, 13, 29 paths over grids of 2, 3
+          and 4 dates, one process in both representations and 2 workers; history kind "default" (g): one engine priced twice
+          (plain / deepcopy / dill in log, plain in identity; cds <-> dput with the same controls), all pairs (N1, N2).
+          Simulated path objects (every pricing of every sub): the times / diffusion / jump arrays of every path object handed
+          out by the scripted process (first 4096 of a pricing) are copied when handed out and compared after Engine.price
+          (`C07:inputs:simulated-path-modified-by-pricing:<component>-component`): the engine reads value() and value_jump()
+          of the same object, so neither may be computed in place.
           Signs and conditioning (both tiers): the product is a forward (`f`, payoff of both signs) or a strip of puts (`pv2`),
           (notional, df) in {(2.5, .9), (-2.5, .9), (2.5, 1.0625), (-1, 1.0625)} (short positions - the controls then have the
           negative notional too - and discount factors above 1) for payoffs f / pv2 / s / v2, controls none / 1a / 2a, N <= 3 all
@@ -179,7 +206,9 @@ engines); direct calls of Engine.initialisation; mc_stddev for N = 1 (the unbias
 which coefficient is taken when the controls' sample covariance is singular; controls whose variance is below the
 library's absolute 1e-12 threshold although the matrix is invertible (needs payoffs of size 1e-6: not in the notional
 alphabet; mentioned in the report); get_variance(); antithetic sampling (raises NotImplementedError); the random streams of
-the worker processes (C08); mc_paths = 0 (mean of an empty sample); strike / price arrays modified by the CALLER after the
+the worker processes (C08); path-dependent controls on NthSpot for a multi-asset Spot product (the scripted process is
+one-dimensional; Barrier.process raises on a 2-d path on the built-against tree); exact ties log-jump increment = threshold
+(the definition of the default event, C17 / C19); mc_paths = 0 (mean of an empty sample); strike / price arrays modified by the CALLER after the
 construction (Vanilla, Forward and ControlVariates keep a reference to what they are given: public attributes, re-assignable,
 the statement promises nothing); exact ties spot = barrier (whether touching is crossing is the payoff's definition, C17);
 the definition of the Asian average itself (the reference takes the library's documented time-weighted sum over the dates of
@@ -316,6 +345,8 @@ def cases(tier):
                 for opt in ({"seed": 7}, {"vr": 1}, {"nodensity": 1}, {"seed": 7, "vr": 1, "nodensity": 1}):
                     out.append(dict(c, sub="sweep", alphabet="A3", rep="identity", N=n, lo=0, hi=3 ** n, **opt))
     out.extend(_ragged_cases(thorough))
+    out.extend(_path_control_cases(thorough))
+    out.extend(_default_time_cases(thorough))
     out.extend(_signed_and_narrow_cases(thorough))
     out.extend(_pool_cases(thorough, confs, sub_lattice))
     out.extend(_forms_cases(thorough))
@@ -359,6 +390,74 @@ def _ragged_cases(thorough):
             for cv in ("none", "2a"):
                 for procs, rep in ((1, "identity"), (1, "log"), (2, "identity"), (3, "identity")) + (((0, "identity"), (3, "log")) if thorough else ()):
                     c = dict(base, sub="pool" if procs != 1 else "sweep", payoff=payoff, cv=cv, spot=1, rep=rep, script="ragged", N=n, lo=0, hi=1)
+                    out.append(dict(c, procs=procs) if procs != 1 else c)
+    return out
+
+
+def _path_control_cases(thorough):
+    """PATH-DEPENDENT controls (barrier calls on Spot): for products on Spot - vanilla, vector of strikes, barrier - the
+    control's underlying is implied from the product's, for the Asian product it is computed from the path; the stored control
+    rows are compared, row by row, with the control product valued on its own on the same scripted path."""
+    out = []
+    base = {"notional": 2.5, "df": 0.9}
+    for n in (1, 2, 3):  # all sequences over B9 (common grid)
+        for payoff in ("s", "v2", "b-uo", "b-di", "as") + (("b-ui", "b-do", "av2") if thorough else ()):
+            for cv in U.PATH_CV_KINDS:
+                for rep in ("identity", "log"):
+                    for spot in (0, 1):
+                        if n == 3 and not thorough and not (payoff in ("s", "b-di") and rep == "identity" and spot == 1 and cv != "2c"):
+                            continue
+                        if spot == 0 and not thorough and not (payoff == "s" and cv == "2b"):
+                            continue
+                        for lo, hi in _blocks(n, 9):
+                            out.append(dict(base, sub="sweep", payoff=payoff, cv=cv, spot=spot, alphabet="B9", rep=rep, N=n, lo=lo, hi=hi))
+    rag = dict(base, alphabet="R27", det=list(U.RAGGED_DET), spot=1)
+    for n in (1, 2):  # ragged grids: all sequences over R27
+        for payoff in ("s", "as", "b-uo"):
+            for cv in ("1b", "2b"):
+                for rep in ("identity", "log"):
+                    if n == 2 and not thorough and not (rep == "identity" and cv == "2b" and payoff != "b-uo"):
+                        continue
+                    for lo, hi in _blocks(n, 27):
+                        out.append(dict(rag, sub="sweep", payoff=payoff, cv=cv, rep=rep, N=n, lo=lo, hi=hi))
+    for n in RAGGED_SCRIPT_NS:  # fixed ragged scripts, single process and the pool branch
+        for payoff in ("s", "v2", "as", "b-uo"):
+            for cv in (U.PATH_CV_KINDS if thorough else ("2b", "2c")):
+                for procs, rep in ((1, "identity"), (1, "log"), (2, "identity")) + (((3, "log"), (0, "identity")) if thorough else ()):
+                    c = dict(rag, sub="pool" if procs != 1 else "sweep", payoff=payoff, cv=cv, rep=rep, script="ragged", N=n, lo=0, hi=1)
+                    out.append(dict(c, procs=procs) if procs != 1 else c)
+    for n in (1, 2):  # the pool branch over B9
+        for payoff in ("s", "b-di"):
+            for procs in (POOL_PROCS if thorough else (2,)):
+                out.append(dict(base, sub="pool", procs=procs, payoff=payoff, cv="2b", spot=1, alphabet="B9", rep="identity", N=n, lo=0, hi=9 ** n))
+    return out
+
+
+DEFAULT_SCRIPT_NS = (7, 13, 29)
+
+
+def _default_time_cases(thorough):
+    """Products on the default time (CDS payoff, puts on the default time), which reads the PURE-JUMP component of the path,
+    on scripted paths whose diffusion AND jump components both move (alphabet D32 / fixed scripts, see mc/c07_util.py); the
+    reference finds the default time from the scripted log-jump increments alone."""
+    out = []
+    base = {"notional": 2.5, "df": 0.9, "det": list(U.RAGGED_DET)}
+    for n in (1, 2):  # all sequences over D32 (32^2 = 1024)
+        for payoff in U.DEFAULT_KINDS:
+            for cv in ("none",) + U.DEFAULT_CV_KINDS:
+                for rep in ("log", "identity"):
+                    for spot in (0, 1):
+                        if not thorough and n == 2 and not ((payoff, cv) in (("cds", "none"), ("dput", "2d"), ("dpv2", "1d")) and spot == 1):
+                            continue
+                        if not thorough and spot == 0 and cv != "none":
+                            continue
+                        for lo, hi in _blocks(n, 32):
+                            out.append(dict(base, sub="sweep", payoff=payoff, cv=cv, spot=spot, alphabet="D32", rep=rep, N=n, lo=lo, hi=hi))
+    for n in DEFAULT_SCRIPT_NS:  # fixed scripts over grids of 2, 3 and 4 dates, single process and the pool branch
+        for payoff in U.DEFAULT_KINDS:
+            for cv in ("none", "2d"):
+                for procs, rep in ((1, "log"), (1, "identity"), (2, "log")) + (((3, "identity"), (0, "log")) if thorough else ()):
+                    c = dict(base, sub="pool" if procs != 1 else "sweep", payoff=payoff, cv=cv, spot=1, alphabet="D32", rep=rep, script="default", N=n, lo=0, hi=1)
                     out.append(dict(c, procs=procs) if procs != 1 else c)
     return out
 
@@ -570,6 +669,26 @@ def _history_cases(thorough):
                         out.append(case("ragged", rep, (rag(p, cvk, sp),) * 2, (op,), pairs, 0, "none"))
     for pa, pb in itertools.permutations(("as", "b-uo", "s"), 2):
         out.append(case("ragged", "identity", (rag(pa, "1a", 1), rag(pb, "1a", 1)), ("plain",), pairs, 0, "none"))
+    # ... with PATH-DEPENDENT controls (forward + down-and-in barrier call on Spot; up-and-in + down-and-out): same configuration
+    # re-priced, and the product changed while the SAME ControlVariates object stays (its underlying is implied from a product on
+    # Spot and computed from the path for the Asian product)
+    for p in ("s", "b-uo") + (("as", "v2") if thorough else ()):
+        for cvk in ("2b",) + (("1b", "2c") if thorough else ()):
+            for rep, ops in (("identity", ("plain", "deepcopy", "dill", "deepcopy-objects") + (("other", "fork", "copy", "dill-objects") if thorough else ())), ("log", ("plain",))):
+                for op in ops:
+                    out.append(case("ragged", rep, (rag(p, cvk, 1),) * 2, (op,), pairs, 0, "none"))
+    for pa, pb in itertools.permutations(("as", "b-uo", "s"), 2):
+        for cvk in ("2b", "2c"):
+            out.append(case("ragged", "identity", (rag(pa, cvk, 1), rag(pb, cvk, 1)), ("plain",), pairs, 0, "none"))
+    # (g) products on the default time on ONE engine: fixed default-time scripts (diffusion and jump components both move)
+    dft = lambda p, cvk: {"payoff": p, "cv": cvk, "spot": 1, "notional": 2.5, "df": 0.9, "det": list(U.RAGGED_DET), "paths": "default"}  # noqa: E731
+    for p in U.DEFAULT_KINDS:
+        for cvk in ("none", "2d"):
+            for rep, ops in (("log", ("plain", "deepcopy", "dill") + (("other", "fork") if thorough else ())), ("identity", ("plain",))):
+                for op in ops:
+                    out.append(case("default", rep, (dft(p, cvk),) * 2, (op,), pairs, 0, "none"))
+    for pa, pb in itertools.permutations(("cds", "dput"), 2):
+        out.append(case("default", "log", (dft(pa, "2d"), dft(pb, "2d")), ("plain",), pairs, 0, "none"))
     return out
 
 
@@ -648,6 +767,8 @@ def _price_and_observe(eng, product, real_pool=False, keyword=False):
     else:
         go()
     proc = eng.process
+    # the path objects handed to the engine (times, diffusion and jump components) must read as when they were handed out
+    obs["paths_changed"] = [] if (pooled and real_pool) else proc.changed_paths()
     obs["calls"] = None if (pooled and real_pool) else proc.calls
     obs["log"] = list(proc.log)
     return obs
@@ -788,6 +909,10 @@ def check_run(sh, case, letters, obs):
     for name in obs.get("inputs_changed") or ():
         sh.violation(f"C07:inputs:argument-array-modified-by-pricing:{name}{hlab}",
                      f"the caller's {name} array(s) read differently after Engine.price than before", detail0)
+
+    for name in obs.get("paths_changed") or ():
+        sh.violation(f"C07:inputs:simulated-path-modified-by-pricing:{name}-component{hlab}",
+                     f"the {name} array of a simulated path object reads differently after Engine.price than when the process handed it out", detail0)
 
     # ---- calls: each path simulated exactly once
     if obs["calls"] is None:
@@ -1056,11 +1181,11 @@ def _pricings(case):
     ragged = ":ragged-grids" if case.get("det") else ""  # every path on its own time grid, deterministic part x0 + drift t
     if case["sub"] == "pool":
         lab = _pool_label(case["procs"], case["N"]) + (":real-pool" if case.get("realpool") else "")
-        dim = (f"{_dimk(U.payoff_dim(case['payoff']))}:{case['payoff']}" if case["payoff"] in U.PATH_KINDS else _dimk(U.payoff_dim(case["payoff"]))) + ragged
+        dim = (f"{_dimk(U.payoff_dim(case['payoff']))}:{case['payoff']}" if (case["payoff"] in U.PATH_KINDS + U.DEFAULT_KINDS or case["cv"] in U.PATH_CV_KINDS) else _dimk(U.payoff_dim(case["payoff"]))) + ragged
         opts = [k for k in ("seed", "vr", "nodensity") if case.get(k)] + list(case.get("forms", ()))
         return [dict(case, dimlab=f"{dim}:{case['rep']}:{lab}" + (f":options-{'+'.join(opts)}" if opts else ""), hlab=f":{lab}")]
     if case["sub"] != "mixed":
-        if case["payoff"] in U.PATH_KINDS or ragged:  # narrower input class in the keys of the path-dependent payoffs
+        if case["payoff"] in U.PATH_KINDS + U.DEFAULT_KINDS or case["cv"] in U.PATH_CV_KINDS or ragged:  # narrower input class in the keys of the path-dependent payoffs
             return [dict(case, dimlab=f"{_dimk(U.payoff_dim(case['payoff']))}:{case['payoff']}:{case['rep']}{ragged}:spot-statistics-{'on' if case['spot'] else 'off'}")]
         opts = [k for k in ("seed", "vr", "nodensity") if case.get(k)]
         if opts:
@@ -1101,6 +1226,8 @@ HIST_FIELDS = ("payoff", "cv", "spot", "notional", "df", "procs")
 
 def _hist_script(stp, k, n, reverse=False):
     """fixed script of the k-th pricing of a history: A4 cycled, or a ragged script when the step says so"""
+    if stp.get("paths") == "default":
+        return U.default_script(k, n, reverse)
     return U.ragged_script(k, n, reverse) if stp.get("paths") == "ragged" else U.script_letters(k, n, reverse)
 
 
@@ -1150,7 +1277,7 @@ def run_history(case, ns, idx):
         opt = {"seed": 7, "vr": 1} if rep == "log" else {}  # the log histories also carry the rarely used options
         if stp.get("procs", 1) != 1:  # the pool branch: number of workers and how the number of paths relates to it
             pos = f"{pos}:{_pool_label(stp['procs'], stp['N'])}"
-        if stp.get("paths") == "ragged":  # narrower input class: payoff kind, ragged grids
+        if stp.get("paths") in ("ragged", "default"):  # narrower input class: payoff kind, ragged grids
             pos = f"{pos}:{stp['payoff']}:ragged-grids"
         return dict(stp, sub="history", rep=rep, alphabet="A3/A4-script", dimlab=f"{_dimk(d)}:history:{rep}:{pos}", hlab=f":history:{pos}", **opt)
 
@@ -1262,6 +1389,8 @@ def check_case(sh, case):
         letters = [letters_all[k] for k in seq]
         if case.get("script") == "ragged":  # a fixed ragged script: every path on its own time grid
             letters = U.ragged_script(0, n)
+        elif case.get("script") == "default":  # a fixed default-time script (diffusion and jump components both move)
+            letters = U.default_script(0, n)
         elif case.get("script") and n > 4096:  # long fixed script (beyond the row-count thresholds of the statistics helpers)
             letters = U.long_script(n)
         elif case.get("script"):  # a fixed script instead of an enumerated sequence (larger numbers of paths)
